@@ -39,7 +39,11 @@ type solveResult struct {
 }
 
 func runSolver(sp solverSpec, file string, timeoutS, seed int) solveResult {
-	ctx, cancel := context.WithTimeout(context.Background(), time.Duration(timeoutS+2)*time.Second)
+	return runSolverCtx(context.Background(), sp, file, timeoutS, seed)
+}
+
+func runSolverCtx(parent context.Context, sp solverSpec, file string, timeoutS, seed int) solveResult {
+	ctx, cancel := context.WithTimeout(parent, time.Duration(timeoutS+2)*time.Second)
 	defer cancel()
 	argv := sp.argv(file, timeoutS, seed)
 	cmd := exec.CommandContext(ctx, argv[0], argv[1:]...)
@@ -92,37 +96,36 @@ func discharge(o *Obligation, idx int, opt solveOpts) {
 	}
 	useCvc5 := !strings.Contains(q, "str.<") && !strings.Contains(q, "(lambda")
 	// first: z3-new alone with a short budget (most goals take milliseconds)
-	first := runSolver(solvers[0], file, min(opt.timeoutS, 4), opt.seed)
+	first := runSolver(solvers[0], file, 1, opt.seed)
 	o.Time += first.time
 	res := first
 	if first.status != "unsat" && first.status != "sat" {
-		// race all
-		var wg sync.WaitGroup
+		// race all: the first definitive answer wins, the others are cancelled
+		ctx, cancel := context.WithCancel(context.Background())
 		ch := make(chan solveResult, 3)
+		n := 0
 		for i, sp := range solvers {
 			if sp.name == "cvc5" && !useCvc5 {
 				continue
 			}
-			wg.Add(1)
+			n++
 			go func(sp solverSpec, i int) {
-				defer wg.Done()
-				ch <- runSolver(sp, file, opt.timeoutS, opt.seed+i+1)
+				ch <- runSolverCtx(ctx, sp, file, opt.timeoutS, opt.seed+i+1)
 			}(sp, i)
 		}
-		wg.Wait()
-		close(ch)
-		for r := range ch {
-			if r.time > o.Time {
-				o.Time = r.time
+		t0 := time.Now()
+		for k := 0; k < n; k++ {
+			r := <-ch
+			if r.status == "unsat" || r.status == "sat" {
+				res = r
+				break
 			}
-			if r.status == "unsat" {
-				res = r
-			} else if r.status == "sat" && res.status != "unsat" {
-				res = r
-			} else if res.status != "unsat" && res.status != "sat" {
+			if res.status != "unsat" && res.status != "sat" && r.status != "error" {
 				res = r
 			}
 		}
+		cancel()
+		o.Time += time.Since(t0).Seconds()
 	}
 	o.Solver = res.solver
 	switch res.status {
@@ -180,6 +183,10 @@ func dischargeAll(obls []*Obligation, opt solveOpts, par int) {
 	for i, o := range obls {
 		if o.Goal == "true" {
 			o.Status, o.Solver = "proved", "trivial"
+			continue
+		}
+		if o.Kind == "spec-error" || o.Kind == "unsupported" {
+			o.Status, o.Solver, o.Output = "failed", "none", o.Src
 			continue
 		}
 		wg.Add(1)
